@@ -1380,6 +1380,23 @@ class EEA:
                     self.obligations += 1
                     e = self.merge(e, self._one(c, self.site(fr, s, "raise", f"raise {norm(x.func)}(...) -> {short_exc(c)}"), fr))
                 return e
+        if isinstance(x, ast.Call) and isinstance(x.func, ast.Name):
+            # `raise helper(err)` with helper a nested function of this (or an enclosing) function
+            scope = fr.func
+            hn = None
+            while scope is not None and hn is None:
+                hn = (getattr(scope, "nested", None) or {}).get(x.func.id)
+                scope = getattr(scope, "parent", None)
+            if hn is not None:
+                for a in x.args:
+                    e = self.merge(e, self.expr(a, st))
+                classes = self._factory_classes(hn, 0, x, fr)
+                if not classes:
+                    raise AnalysisError(f"cannot tell which exception {x.func.id} builds at {fr.module.relpath}:{s.lineno}")
+                for c in sorted(classes):
+                    self.obligations += 1
+                    e = self.merge(e, self._one(c, self.site(fr, s, "raise", f"raise {x.func.id}(...) -> {short_exc(c)}"), fr))
+                return e
         if isinstance(x, ast.Call):
             e = self.merge(e, self.expr(x, st, skip_self_call=True))
             for a in x.args:
